@@ -254,6 +254,11 @@ func genAddrs(t *rapid.T) []Addr {
 		out = append(out, out[rapid.IntRange(0, len(out)-1).Draw(t, "which")])
 	}
 	for i := range out {
+		// a chain matters most on the line that leads to the target
+		if out[i].Kind == "live" && rapid.IntRange(0, 3).Draw(t, "livechain") == 0 {
+			out[i].Chain = chains[len(chains)-1-rapid.IntRange(0, 1).Draw(t, "whichchain")]
+			continue
+		}
 		out[i].Chain = rapid.SampledFrom(chains).Draw(t, "chain")
 	}
 	return out
